@@ -110,11 +110,12 @@ def handleRegion (circular : Bool) (L : Int) (rec : BioRecord) (j : Json) : R Js
                ("expected_seq", Json.str (String.ofList (expectedSeq L rd rec.seq))),
                ("region_len", toJson (regionLen L rd)),
                ("images", jArr images),
-               ("scope", toJson (wfInput rd rec && linked rd rec)),
+               ("scope", toJson (wfInput rd rec && consistent rd rec)),
                ("scope_wf", toJson (wfInput rd rec)),
                ("kf_prepeptide_cut", toJson (prepeptideCut L rd rec.features)),
                ("kf_equal_areas", toJson (equalAreas rd)),
-               ("kf_exons_span_file", toJson (exonsSpanFile circular L rd rec.features))]
+               ("kf_exons_span_file", toJson (exonsSpanFile circular L rd rec.features)),
+               ("kf_abutting_exons", toJson (chainLoses rd rec))]
 
 def handle (j : Json) : R Json := do
   let seq ← strF j "seq"
